@@ -44,6 +44,9 @@ structure FCfg where
   rollsBackFailedBlock : Bool
   /-- (repair, not in the tree) the offset is restored when the in-place header rewrite fails -/
   restoresOffsetAfterHeader : Bool
+  /-- flushLocked never hands more than 65535 entries to one block (the rest stays buffered and
+      is written as further blocks) -/
+  splitsOversizedBuffer : Bool := false
   deriving DecidableEq, Repr
 
 def nextRes : List Res → Res × List Res
@@ -67,52 +70,122 @@ def fileLen (d : Disk) (p : Path) : Nat :=
   | some f => f.length
   | none => 0
 
-/-- `flushLocked` under faults.  With `rollsBackFailedBlock` this is the repaired version: a
-    failed block write is cut off again (`Truncate(start)`, remembered in `dirty` when even that
-    fails and retried before the next block), the offset goes back and the entries stay buffered. -/
+/-- One block of `flushLocked` under faults: `chunk` is written, `rest` (sizes `restSzs`) is what
+    stays buffered behind it.  `start` is the offset the block begins at.
+    With `rollsBackFailedBlock` this is the repaired version: a failed block write is cut off again
+    (`Truncate(start)`, remembered in `dirty` when even that fails and retried before the next
+    block), the offset goes back and the entries return to the front of the buffer.
+    The flag says whether `flushLocked` goes on with the next block. -/
+def writeBlockF (fc : FCfg) (mk : Mk) (s : FSt) (chunk rest : List Op) (restSzs : List Nat) : FSt × Bool :=
+  let w := s.w
+  let b := mk chunk
+  let start := w.pos
+  -- what the buffer holds while the block is being written
+  let wCleared : WSt := { w with buf := rest, bufSize := restSzs.sum, szs := restSzs }
+  let w0 := if fc.clearsBufferBeforeWrite then wCleared else w
+  let rollback (s : FSt) (pos : Nat) : FSt :=
+    if fc.rollsBackFailedBlock then
+      let (s', r) := ({ s with w := { w with pos := start } } : FSt).issue (.truncate w.path start)
+      { s' with w := { s'.w with dirty := !r.isOk }, failed := true }
+    else { s with w := { w0 with pos := pos }, failed := true }
+  let (s1, r1) := s.issue (.write w.path start (hdrCells b))
+  if !r1.isOk then (rollback s1 (start + r1.written 16), false) else
+  let (s2, r2) := s1.issue (.write w.path (start + 16) (payCells b))
+  if !r2.isOk then (rollback s2 (start + 16 + r2.written b.plen), false) else
+  let (s3, r3) := s2.issue (.write w.path 0 (fhCells w.nl))
+  if !r3.isOk then
+    -- the block is on disk; the descriptor is left wherever the header write stopped
+    let pos := if fc.restoresOffsetAfterHeader then start + 16 + b.plen else r3.written 64
+    ({ s3 with w := { wCleared with pos := pos }, failed := true }, false)
+  else ({ s3 with w := { wCleared with pos := start + 16 + b.plen } }, true)
+
+/-- the blocks of one `flushLocked`: with `splitsOversizedBuffer` at most `maxEnts` entries go
+    into a block and the flush goes on with the rest; without it the whole buffer is handed to
+    `CompressEntries` whatever its length.  Fuel: one unit per block. -/
+def flushBlocks (fc : FCfg) (mk : Mk) : Nat → FSt → FSt
+  | 0, s => s
+  | n + 1, s =>
+    match s.w.buf with
+    | [] => s
+    | _ =>
+      if fc.splitsOversizedBuffer && decide (maxEnts < s.w.buf.length) then
+        let (s', go) := writeBlockF fc mk s (s.w.buf.take maxEnts) (s.w.buf.drop maxEnts) (s.w.szs.drop maxEnts)
+        if go then flushBlocks fc mk n s' else s'
+      else (writeBlockF fc mk s s.w.buf [] []).1
+
+/-- `flushLocked` under faults.  The repaired flush first gets rid of a fragment it could not cut
+    off earlier. -/
 def flushWF (fc : FCfg) (mk : Mk) (s : FSt) : FSt :=
-  -- the repaired flush first gets rid of a fragment it could not cut off earlier
   let s : FSt × Bool :=
     if fc.rollsBackFailedBlock && s.w.dirty then
       let (s', r) := s.issue (.truncate s.w.path s.w.pos)
       if r.isOk then ({ s' with w := { s'.w with dirty := false } }, true) else ({ s' with failed := true }, false)
     else (s, true)
-  if !s.2 then s.1 else
-  let s := s.1
-  match s.w.buf with
-  | [] => s
-  | _ =>
-    let w := s.w
-    let b := mk w.buf
-    let start := w.pos
-    -- the buffer has already been emptied when the writes start
-    let wCleared : WSt := { w with buf := [], bufSize := 0 }
-    let w0 := if fc.clearsBufferBeforeWrite then wCleared else w
-    let rollback (s : FSt) (pos : Nat) : FSt :=
-      if fc.rollsBackFailedBlock then
-        let (s', r) := ({ s with w := { w with pos := start } } : FSt).issue (.truncate w.path start)
-        { s' with w := { s'.w with dirty := !r.isOk }, failed := true }
-      else { s with w := { w0 with pos := pos }, failed := true }
-    let (s1, r1) := s.issue (.write w.path start (hdrCells b))
-    if !r1.isOk then rollback s1 (start + r1.written 16) else
-    let (s2, r2) := s1.issue (.write w.path (start + 16) (payCells b))
-    if !r2.isOk then rollback s2 (start + 16 + r2.written b.plen) else
-    let (s3, r3) := s2.issue (.write w.path 0 (fhCells w.nl))
-    if !r3.isOk then
-      -- the block is on disk; the descriptor is left wherever the header write stopped
-      let pos := if fc.restoresOffsetAfterHeader then start + 16 + b.plen else r3.written 64
-      { s3 with w := { wCleared with pos := pos }, failed := true }
-    else { s3 with w := { wCleared with pos := start + 16 + b.plen } }
+  if !s.2 then s.1 else flushBlocks fc mk (s.1.w.buf.length / maxEnts + 1) s.1
 
 /-- `WriteEntry` under faults; a failure is reported to the caller (who logs it and goes on) -/
 def addWF (fc : FCfg) (mk : Mk) (s : FSt) (e : Op) (sz : Nat) : FSt :=
-  let w1 := { s.w with buf := s.w.buf ++ [e], bufSize := s.w.bufSize + sz }
-  let s1 := { s with w := w1 }
-  if w1.bufSize ≥ w1.bs then flushWF fc mk s1 else s1
+  let s1 := { s with w := s.w.push e sz }
+  if s1.w.full then flushWF fc mk s1 else s1
 
 def addManyWF (fc : FCfg) (mk : Mk) (s : FSt) : List (Op × Nat) → FSt
   | [] => s
   | (e, sz) :: rest => addManyWF fc mk ({ addWF fc mk s e sz with failed := false }) rest
+
+/-! #### The same function in linear time (what the compiled driver runs)
+
+`addManyWF` appends to the end of the buffer for every entry and measures the buffer to see whether
+it reports full: quadratic in the number of pending entries, which an outage drives beyond 65535.
+`addManyWFfast` keeps the entries that arrived since the last flush in reverse and counts along;
+`addManyWF_eq_fast` proves the two equal, `@[csimp]` makes the compiler use the fast one. -/
+
+/-- the state after the pending entries `pe` (newest first, sizes `ps`) were added without a flush -/
+def FSt.mat (s : FSt) (pe : List Op) (ps : List Nat) (bsz : Nat) (fl : Bool) : FSt :=
+  { s with w := { s.w with buf := s.w.buf ++ pe.reverse, bufSize := bsz, szs := s.w.szs ++ ps.reverse }, failed := fl }
+
+def addManyWFgo (fc : FCfg) (mk : Mk) (s : FSt) (pe : List Op) (ps : List Nat) (n bsz : Nat) (fl : Bool) :
+    List (Op × Nat) → FSt
+  | [] => s.mat pe ps bsz fl
+  | (e, sz) :: rest =>
+    if bsz + sz ≥ s.w.bs ∨ n + 1 ≥ maxEnts then
+      let s2 : FSt := { flushWF fc mk (s.mat (e :: pe) (sz :: ps) (bsz + sz) fl) with failed := false }
+      addManyWFgo fc mk s2 [] [] s2.w.buf.length s2.w.bufSize false rest
+    else addManyWFgo fc mk s (e :: pe) (sz :: ps) (n + 1) (bsz + sz) false rest
+
+def addManyWFfast (fc : FCfg) (mk : Mk) (s : FSt) (items : List (Op × Nat)) : FSt :=
+  addManyWFgo fc mk s [] [] s.w.buf.length s.w.bufSize s.failed items
+
+theorem FSt.mat_nil (s : FSt) : s.mat [] [] s.w.bufSize s.failed = s := by
+  cases s with | mk w d ops rs failed => cases w; simp [FSt.mat]
+
+theorem FSt.mat_push (s : FSt) (pe : List Op) (ps : List Nat) (bsz : Nat) (fl : Bool) (e : Op) (sz : Nat) :
+    ({ s.mat pe ps bsz fl with w := (s.mat pe ps bsz fl).w.push e sz } : FSt) = s.mat (e :: pe) (sz :: ps) (bsz + sz) fl := by
+  simp [FSt.mat, WSt.push, List.reverse_cons, List.append_assoc]
+
+theorem addManyWFgo_eq (fc : FCfg) (mk : Mk) (items : List (Op × Nat)) :
+    ∀ (s : FSt) (pe : List Op) (ps : List Nat) (n bsz : Nat) (fl : Bool), n = s.w.buf.length + pe.length →
+    addManyWFgo fc mk s pe ps n bsz fl items = addManyWF fc mk (s.mat pe ps bsz fl) items := by
+  induction items with
+  | nil => intro s pe ps n bsz fl _; rfl
+  | cons it rest ih =>
+    intro s pe ps n bsz fl hn
+    obtain ⟨e, sz⟩ := it
+    have hfull : ((s.mat pe ps bsz fl).w.push e sz).full ↔ (bsz + sz ≥ s.w.bs ∨ n + 1 ≥ maxEnts) := by
+      simp only [WSt.full, WSt.push, FSt.mat, List.length_append, List.length_reverse, List.length_cons, List.length_nil, hn]
+    simp only [addManyWF, addManyWFgo, addWF]
+    by_cases hf : bsz + sz ≥ s.w.bs ∨ n + 1 ≥ maxEnts
+    · rw [if_pos hf, if_pos (hfull.mpr hf), FSt.mat_push]
+      rw [ih _ [] [] _ _ false (by simp)]
+      congr 1
+      exact FSt.mat_nil { flushWF fc mk (s.mat (e :: pe) (sz :: ps) (bsz + sz) fl) with failed := false }
+    · rw [if_neg hf, if_neg (fun h => hf (hfull.mp h)), FSt.mat_push]
+      rw [ih s (e :: pe) (sz :: ps) (n + 1) (bsz + sz) false (by simp [hn]; omega)]
+      rfl
+
+@[csimp] theorem addManyWF_eq_fast : @addManyWF = @addManyWFfast := by
+  funext fc mk s items
+  unfold addManyWFfast
+  rw [addManyWFgo_eq fc mk items s [] [] _ _ _ (by simp), FSt.mat_nil]
 
 /-- `FileWriter.Sync` under faults -/
 def syncWF (c : Cfg) (fc : FCfg) (mk : Mk) (s : FSt) : FSt :=
